@@ -62,25 +62,26 @@ Proof. intro H. exact H. Qed.
 Lemma bool3 a b c : (a || c) || b = (a || b) || c.
 Proof. destruct a, b, c; reflexivity. Qed.
 
-Lemma tr_block_simple ml : forall f gf top ld s D L ps D' ns s',
+Lemma tr_block_simple ml : forall f gf glob top lm ld s D L ps D' ns s',
+  glob = top && negb lm ->
   g_block gf top D L ps = Some D' -> Dec D L s ->
-  tr_block ml f top ld s ps = Some (ns, s') ->
-  ns = fst (trm top D ps) /\ globals s' = globals s ++ snd (trm top D ps) /\ Dec D' L s'.
+  tr_block ml f glob ld s ps = Some (ns, s') ->
+  ns = fst (trm top lm D ps) /\ globals s' = globals s ++ snd (trm top lm D ps) /\ Dec D' L s'.
 Proof.
-  induction f as [|f IH]; intros gf top ld s D L ps D' ns s' HG HD H; [discriminate|].
+  induction f as [|f IH]; intros gf glob top lm ld s D L ps D' ns s' HGL HG HD H; [discriminate|].
   destruct ps as [|p rest].
   - inversion H; subst. destruct gf; [discriminate|]. rewrite g_block_nil in HG. inversion HG; subst.
     rewrite trm_nil. cbn. rewrite app_nil_r. auto.
   - apply g_block_cons_inv in HG as (gf' & D1 & -> & HS & HG).
     assert (K : forall ns0 s1 nsp gsp,
-               trm top D (p :: rest) = (nsp ++ fst (trm top D1 rest), gsp ++ snd (trm top D1 rest)) ->
-               match tr_block ml f top ld s1 rest with
+               trm top lm D (p :: rest) = (nsp ++ fst (trm top lm D1 rest), gsp ++ snd (trm top lm D1 rest)) ->
+               match tr_block ml f glob ld s1 rest with
                | None => None | Some (ms, s2) => Some (ns0 ++ ms, s2) end = Some (ns, s') ->
                ns0 = nsp -> globals s1 = globals s ++ gsp -> Dec D1 L s1 ->
-               ns = fst (trm top D (p :: rest)) /\ globals s' = globals s ++ snd (trm top D (p :: rest)) /\ Dec D' L s').
+               ns = fst (trm top lm D (p :: rest)) /\ globals s' = globals s ++ snd (trm top lm D (p :: rest)) /\ Dec D' L s').
     { intros ns0 s1 nsp gsp HT Hr -> Hg Hd.
-      destruct (tr_block ml f top ld s1 rest) as [[ms s2]|] eqn:E; [|discriminate].
-      inversion Hr; subst. destruct (IH _ _ _ _ _ _ _ _ _ _ HG Hd E) as (I1 & I2 & I3).
+      destruct (tr_block ml f glob ld s1 rest) as [[ms s2]|] eqn:E; [|discriminate].
+      inversion Hr; subst. destruct (IH _ _ top lm _ _ _ _ _ _ _ _ eq_refl HG Hd E) as (I1 & I2 & I3).
       rewrite HT. cbn [fst snd]. rewrite I1, I2, Hg, app_assoc. auto. }
     destruct p; cbn [tr_block] in H.
     + (* PAssign *)
@@ -91,23 +92,30 @@ Proof.
       * destruct (ty_eqb t (a_ty e)); [|discriminate]. inversion HS; subst D1.
         match type of H with context [tmem x ?l] => replace (tmem x l) with true in H by (symmetry; eapply tlookup_dom_true; eauto) end.
         eapply (K _ _ [NAssign x (XE (a_id e))] []); [|exact H|reflexivity|cbn; rewrite app_nil_r; reflexivity|exact HD].
-        rewrite (trm_cons_old top D x e rest _ Hl), tr1_unfold. reflexivity.
+        rewrite (trm_cons_old top lm D x e rest _ Hl), tr1_unfold. reflexivity.
       * destruct top; [|discriminate]. inversion HS; subst D1.
         match type of H with context [tmem x ?l] => replace (tmem x l) with false in H by (symmetry; eapply tlookup_dom_false; eauto) end.
-        assert (HD1 : forall g, Dec (D ++ [(x, a_ty e)]) L (add_global g (declare x (with_ty x (a_ty e) s)))).
-        { intros g y. cbn [add_global declare with_ty declared]. rewrite map_app, !tmem_app, (HD y). cbn [map fst].
-          apply bool3. }
-        pose proof (trm_cons_new D x e rest Hl) as HT.
-        destruct (closed_const e).
-        -- eapply (K _ _ [] [_]); [exact HT|exact H|reflexivity|reflexivity|apply HD1].
-        -- eapply (K _ _ [NAssign x (XE (a_id e))] [_]); [exact HT|exact H|reflexivity|reflexivity|apply HD1].
+        destruct lm; cbn [andb negb] in HGL; subst glob.
+        -- (* main-loop body: a local declaration in place *)
+           assert (HD1 : Dec (D ++ [(x, a_ty e)]) L (declare x (with_ty x (a_ty e) s))).
+           { intro y. cbn [declare with_ty declared]. rewrite map_app, !tmem_app, (HD y). cbn [map fst].
+             apply bool3. }
+           pose proof (trm_cons_newl D x e rest Hl) as HT.
+           eapply (K _ _ [NDecl x (a_ty e) (XE (a_id e)) false] []); [exact HT|exact H|reflexivity|cbn; rewrite app_nil_r; reflexivity|apply HD1].
+        -- assert (HD1 : forall g, Dec (D ++ [(x, a_ty e)]) L (add_global g (declare x (with_ty x (a_ty e) s)))).
+           { intros g y. cbn [add_global declare with_ty declared]. rewrite map_app, !tmem_app, (HD y). cbn [map fst].
+             apply bool3. }
+           pose proof (trm_cons_new D x e rest Hl) as HT.
+           destruct (closed_const e).
+           ++ eapply (K _ _ [] [_]); [exact HT|exact H|reflexivity|reflexivity|apply HD1].
+           ++ eapply (K _ _ [NAssign x (XE (a_id e))] [_]); [exact HT|exact H|reflexivity|reflexivity|apply HD1].
     + (* PAug *)
       cbn [g_step] in HS. destruct (fv_ok D L e); [|discriminate].
       destruct (tmem x L) eqn:HxL; [discriminate|]. cbn [negb orb] in HS.
       destruct (tlookup x D) as [t|] eqn:Hl; [|discriminate].
       destruct (ty_eqb t t_after); [|discriminate]. inversion HS; subst D1.
       eapply (K _ _ [NAssign x (XAug x op (a_id e))] []); [|exact H|reflexivity|cbn; rewrite app_nil_r; reflexivity|exact HD].
-      rewrite (trm_cons_other top D (PAug x op e t_after) rest I), tr1_unfold. reflexivity.
+      rewrite (trm_cons_other top lm D (PAug x op e t_after) rest I), tr1_unfold. reflexivity.
     + discriminate.
     + (* PIf *)
       cbn [g_step] in HS.
@@ -119,12 +127,12 @@ Proof.
       { intros cb Hin. rewrite forallb_forall in H2. specialize (H2 _ Hin).
         apply andb_true_iff in H2 as [_ H2]. apply nested_true in H2. exact H2. }
       clear H2.
-      assert (HT : trm top D (PIf c body elifs els :: rest) =
-                   ([NIf ((a_id c, trn body) :: trnb elifs) (trn els)] ++ fst (trm top D rest), [] ++ snd (trm top D rest))).
-      { rewrite (trm_cons_other top D (PIf c body elifs els) rest I), tr1_unfold. reflexivity. }
+      assert (HT : trm top lm D (PIf c body elifs els :: rest) =
+                   ([NIf ((a_id c, trn body) :: trnb elifs) (trn els)] ++ fst (trm top lm D rest), [] ++ snd (trm top lm D rest))).
+      { rewrite (trm_cons_other top lm D (PIf c body elifs els) rest I), tr1_unfold. reflexivity. }
       head_opt H a0 a1 E.
       destruct (tr_block ml f false ld (child_of s (globals s)) body) as [[ns1 cs1]|] eqn:E1; [|discriminate].
-      destruct (IH _ _ _ _ _ _ _ _ _ _ H1 (Dec_child D L s (globals s) HD) E1) as (I1 & I2 & I3).
+      destruct (IH _ false false false _ _ _ _ _ _ _ _ eq_refl H1 (Dec_child D L s (globals s) HD) E1) as (I1 & I2 & I3).
       cbn [trm fst snd child_of globals] in I1, I2. rewrite app_nil_r in I2.
       match type of E with
       | context [?B (globals cs1) elifs] => set (BR := B) in *
@@ -139,7 +147,7 @@ Proof.
         - destruct (tr_block ml f false ld (child_of s gl) b) as [[nsb cs]|] eqn:Eb; [|discriminate].
           destruct (BR (globals cs) r) as [[rest' gl'']|] eqn:Er; [|discriminate].
           inversion Hb; subst brs gl''. clear Hb.
-          destruct (IH _ _ _ _ _ _ _ _ _ _ (Hgd (c', b) (or_introl eq_refl)) (Dec_child D L s gl HD) Eb) as (J1 & J2 & J3).
+          destruct (IH _ false false false _ _ _ _ _ _ _ _ eq_refl (Hgd (c', b) (or_introl eq_refl)) (Dec_child D L s gl HD) Eb) as (J1 & J2 & J3).
           cbn [trm fst snd child_of globals] in J1, J2. rewrite app_nil_r in J2.
           destruct (IHl (globals cs) rest' gl') as (K1 & K2 & K3); [congruence|intros; apply Hgd; right; assumption|exact Er|].
           split; [exact K1|]. split; [cbn; rewrite K2, J1; reflexivity|constructor; assumption]. }
@@ -153,14 +161,14 @@ Proof.
                  (forall cl seen, Forall (Dec D L) cl -> COL cl seen = @nil (ident * ty)) ->
                  Forall (Dec D L) ctxs -> elsn = trn els ->
                  (let '(decls, s3) :=
-                    promo_decls top (COL ctxs [])
+                    promo_decls glob (COL ctxs [])
                       (fold_left (fun acc xt => with_ty (fst xt) (snd xt) acc) (COL ctxs [])
                          {| declared := declared s; vtypes := vtypes s; globals := gl1; tmpc := tmpc s |}) in
                   Some (decls ++ [NIf (map (fun x : Z * list cnode * tst => (fst (fst x), map (rewrite_if (map fst (COL ctxs []))) (snd (fst x))))
                                          ((a_id c, ns1, cs1) :: brs0))
                                       (map (rewrite_if (map fst (COL ctxs []))) elsn)], s3)) = Some (a0, a1) ->
-                 ns = fst (trm top D (PIf c body elifs els :: rest)) /\
-                   globals s' = globals s ++ snd (trm top D (PIf c body elifs els :: rest)) /\ Dec D' L s').
+                 ns = fst (trm top lm D (PIf c body elifs els :: rest)) /\
+                   globals s' = globals s ++ snd (trm top lm D (PIf c body elifs els :: rest)) /\ Dec D' L s').
       { intros elsn ctxs COL HCOL HF -> HE. rewrite (HCOL ctxs [] HF) in HE.
         cbn [promo_decls fold_left map] in HE. rewrite RW in HE. rewrite !map_rewrite_if_nil in HE. cbn [map fst snd] in HE.
         rewrite B2, I1 in HE. inversion HE; subst a0 a1. clear HE.
@@ -182,7 +190,7 @@ Proof.
       * eapply (FIN [] (map (fun x : Z * list cnode * tst => snd x) ((a_id c, ns1, cs1) :: brs0) ++ []) _ HCOLg); [|reflexivity|exact E].
         apply Forall_app. split; [exact B3'|constructor].
       * destruct (tr_block ml f false ld (child_of s gl1) (e0 :: els')) as [[nse cse]|] eqn:Ee; [|discriminate].
-        destruct (IH _ _ _ _ _ _ _ _ _ _ H3 (Dec_child D L s gl1 HD) Ee) as (J1 & J2 & J3).
+        destruct (IH _ false false false _ _ _ _ _ _ _ _ eq_refl H3 (Dec_child D L s gl1 HD) Ee) as (J1 & J2 & J3).
         cbn [trm fst snd child_of globals] in J1, J2. rewrite app_nil_r in J2.
         cbn [globals] in E. rewrite J2 in E.
         eapply (FIN nse (map (fun x : Z * list cnode * tst => snd x) ((a_id c, ns1, cs1) :: brs0) ++ [cse]) _ HCOLg); [|exact J1|exact E].
@@ -193,14 +201,14 @@ Proof.
       inversion HS; subst D1. apply andb_true_iff in Hc as [_ H1]. apply nested_true in H1.
       head_opt H a0 a1 E.
       destruct (tr_block ml f false (S ld) (child_of s (globals s)) body) as [[nsb cs]|] eqn:Eb; [|discriminate].
-      destruct (IH _ _ _ _ _ _ _ _ _ _ H1 (Dec_child D L s (globals s) HD) Eb) as (I1 & I2 & I3).
+      destruct (IH _ false false false _ _ _ _ _ _ _ _ eq_refl H1 (Dec_child D L s (globals s) HD) Eb) as (I1 & I2 & I3).
       cbn [trm fst snd child_of globals] in I1, I2. rewrite app_nil_r in I2.
       rewrite (Dec_new_names D L s cs HD I3) in E. rewrite filter_tmem_nil in E.
       cbn [dedup app filter map fold_left promo_decls] in E. rewrite map_rewrite_deep_nil in E.
       inversion E; subst a0 a1. clear E.
       eapply (K _ _ [NWhile (a_id c) (trn body)] []);
         [|exact H|subst nsb; reflexivity|cbn [globals]; rewrite I2, app_nil_r; reflexivity|exact HD].
-      rewrite (trm_cons_other top D (PWhile c body) rest I), tr1_unfold. reflexivity.
+      rewrite (trm_cons_other top lm D (PWhile c body) rest I), tr1_unfold. reflexivity.
     + (* PFor *)
       cbn [g_step] in HS.
       match type of HS with (if ?cnd then _ else _) = _ => destruct cnd eqn:Hc; [|discriminate] end.
@@ -219,32 +227,32 @@ Proof.
       assert (HDb : Dec D (x :: L) base).
       { intro y. unfold base. cbn [declared]. rewrite tmem_app, (HD y). cbn [tmem].
         destruct (tmem y (map fst D)), (tmem y L), (text_eqb y x); reflexivity. }
-      destruct (IH _ _ _ _ _ _ _ _ _ _ H8 HDb Eb) as (I1 & I2 & I3).
+      destruct (IH _ false false false _ _ _ _ _ _ _ _ eq_refl H8 HDb Eb) as (I1 & I2 & I3).
       cbn [trm fst snd] in I1, I2. rewrite app_nil_r in I2.
       rewrite (Dec_new_names D (x :: L) base cs HDb I3) in E. rewrite filter_tmem_nil in E.
       cbn [dedup app filter map fold_left promo_decls] in E. rewrite map_rewrite_deep_nil in E.
       inversion E; subst a0 a1. clear E.
       eapply (K _ _ [NFor x (a_id cnt) (trn body)] []);
         [|exact H|subst nsb; reflexivity|cbn [globals]; rewrite I2, app_nil_r; reflexivity|exact HD].
-      rewrite (trm_cons_other top D (PFor x cnt body) rest I), tr1_unfold. reflexivity.
+      rewrite (trm_cons_other top lm D (PFor x cnt body) rest I), tr1_unfold. reflexivity.
     + (* PBreak *)
       cbn [g_step] in HS. inversion HS; subst D1.
-      assert (HT : trm top D (PBreak :: rest) = ([NBreak] ++ fst (trm top D rest), [] ++ snd (trm top D rest))).
-      { rewrite (trm_cons_other top D PBreak rest I), tr1_unfold. reflexivity. }
+      assert (HT : trm top lm D (PBreak :: rest) = ([NBreak] ++ fst (trm top lm D rest), [] ++ snd (trm top lm D rest))).
+      { rewrite (trm_cons_other top lm D PBreak rest I), tr1_unfold. reflexivity. }
       destruct ld as [|[|ld']]; [discriminate| |].
       * destruct ml; [discriminate|].
         eapply (K _ _ _ _ HT); [exact H|reflexivity|cbn; rewrite app_nil_r; reflexivity|exact HD].
       * eapply (K _ _ _ _ HT); [exact H|reflexivity|cbn; rewrite app_nil_r; reflexivity|exact HD].
     + cbn [g_step] in HS. destruct (fv_ok D L e); [|discriminate]. inversion HS; subst D1.
       eapply (K _ _ [NWrite (a_id e)] []); [|exact H|reflexivity|cbn; rewrite app_nil_r; reflexivity|exact HD].
-      rewrite (trm_cons_other top D (PWrite e) rest I), tr1_unfold. reflexivity.
+      rewrite (trm_cons_other top lm D (PWrite e) rest I), tr1_unfold. reflexivity.
     + cbn [g_step] in HS. destruct (fv_ok D L e); [|discriminate]. inversion HS; subst D1.
       eapply (K _ _ [NSleep (a_id e)] []); [|exact H|reflexivity|cbn; rewrite app_nil_r; reflexivity|exact HD].
-      rewrite (trm_cons_other top D (PSleep e) rest I), tr1_unfold. reflexivity.
+      rewrite (trm_cons_other top lm D (PSleep e) rest I), tr1_unfold. reflexivity.
     + cbn [g_step] in HS. destruct (fv_ok D L e); [|discriminate]. inversion HS; subst D1.
-      assert (HT : trm top D (PExprS e :: rest) =
-                   ((if closed_const e then [] else [NExprS (a_id e)]) ++ fst (trm top D rest), [] ++ snd (trm top D rest))).
-      { rewrite (trm_cons_other top D (PExprS e) rest I), tr1_unfold. reflexivity. }
+      assert (HT : trm top lm D (PExprS e :: rest) =
+                   ((if closed_const e then [] else [NExprS (a_id e)]) ++ fst (trm top lm D rest), [] ++ snd (trm top lm D rest))).
+      { rewrite (trm_cons_other top lm D (PExprS e) rest I), tr1_unfold. reflexivity. }
       destruct (closed_const e);
         (eapply (K _ _ _ _ HT); [exact H|reflexivity|cbn; rewrite app_nil_r; reflexivity|exact HD]).
 Qed.
